@@ -121,22 +121,24 @@ def checkRun (l : Line) (blocks : Bool) : Verdict := Id.run do
   let _ := modelOn
   return .ok nontrivial
 
-/-- `run_frame` probe: each of the two calls must end, within two frame periods plus one step of emulated time -/
+/-- `run_frame` probe (the real `Core::run_frame` in a child process under an alarm): each of the two calls must return,
+and must return after at most two frames completed by the LCD (the property's bound: two frame periods plus one block) -/
 def checkFrame (l : Line) : Verdict :=
-  let mx := l.outN "mx"
-  let bound := 2 * 70224 + mx
-  let bad (which : String) (e s k : Nat) : Option Verdict :=
+  let blk := l.outN "blk"
+  let bad (which : String) (e f ly m : Nat) : Option Verdict :=
     if e == 0 then
-      some (.specDiff s!"[run_frame.nontermination] {which} run_frame call still polling after {s} steps / {k} clocks (block of {mx} clocks; bound 2 frames + 1 step = {bound})")
-    else if k > bound then
-      some (.specDiff s!"[run_frame.late] {which} run_frame call took {k} clocks, bound {bound}")
-    else none
-  match bad "first" (l.outN "e1") (l.outN "s1") (l.outN "k1") with
+      some (.specDiff s!"[run_frame.nontermination] {which} run_frame call did not return (killed by the alarm); loop block of {blk} clocks")
+    else if f > 2 then
+      some (.specDiff s!"[run_frame.late] {which} run_frame call returned only after {f} completed frames (more than two frame periods)")
+    else
+      let _ := (ly, m)      -- with long blocks the call returns at the end of the block in which the frame completed
+      none
+  match bad "first" (l.outN "e1") (l.outN "f1") (l.outN "ly1") (l.outN "m1") with
   | some v => v
   | none =>
-    match bad "second" (l.outN "e2") (l.outN "s2") (l.outN "k2") with
+    match bad "second" (l.outN "e2") (l.outN "f2") (l.outN "ly2") (l.outN "m2") with
     | some v => v
-    | none => .ok (mx > 456)
+    | none => .ok (blk > 456)
 
 def checkC09 (l : Line) : Verdict :=
   if l.stream == "c09.frame" then checkFrame l
